@@ -1,0 +1,103 @@
+//! Verification hooks. Compiled only with `--cfg capy_verif`; adds read-only access to
+//! crate-private pure functions (layout, mangling, ABI classification, type ids) for an
+//! external correspondence harness. Nothing here is used by the compiler itself.
+
+use cranelift::prelude::types;
+use hir::common::{ComptimeLoc, ConcreteLoc, NaiveLoc, ParamTy, Ty};
+use interner::Interner;
+use internment::Intern;
+
+use crate::{
+    compiler::MetaTyData,
+    convert::{self, GetFinalTy, ToTyId},
+    layout::{self, GetLayoutInfo},
+    mangle::{self, Mangle},
+};
+
+#[derive(Debug, Clone, PartialEq, Eq)]
+pub struct LayoutInfo {
+    pub size: u32,
+    pub align: u32,
+    pub stride: u32,
+    pub struct_offsets: Option<Vec<u32>>,
+    pub discriminant_offset: Option<u32>,
+}
+
+fn ptr_ty(pointer_bit_width: u32) -> types::Type {
+    match pointer_bit_width {
+        16 => types::I16,
+        32 => types::I32,
+        64 => types::I64,
+        other => panic!("unsupported pointer width {other}"),
+    }
+}
+
+/// `calc_layouts` followed by the `GetLayoutInfo` accessors for each of `tys`.
+pub fn layouts(tys: &[Intern<Ty>], pointer_bit_width: u32) -> Vec<LayoutInfo> {
+    layout::calc_layouts(tys.iter().copied(), pointer_bit_width);
+    tys.iter()
+        .map(|ty| LayoutInfo {
+            size: ty.size(),
+            align: ty.align(),
+            stride: ty.stride(),
+            struct_offsets: ty.struct_layout().map(|l| l.offsets().to_vec()),
+            discriminant_offset: ty.enum_layout().map(|l| l.discriminant_offset()),
+        })
+        .collect()
+}
+
+pub fn padding_needed_for(offset: u32, align: u32) -> u32 {
+    layout::padding_needed_for(offset, align)
+}
+
+pub fn mangle_naive(loc: NaiveLoc, mod_dir: &std::path::Path, interner: &Interner) -> String {
+    loc.to_mangled_name(mod_dir, interner)
+}
+
+pub fn mangle_concrete(loc: ConcreteLoc, mod_dir: &std::path::Path, interner: &Interner) -> String {
+    loc.to_mangled_name(mod_dir, interner)
+}
+
+pub fn mangle_comptime(loc: ComptimeLoc, mod_dir: &std::path::Path, interner: &Interner) -> String {
+    loc.to_mangled_name(mod_dir, interner)
+}
+
+pub fn mangle_comptime_data(
+    loc: ComptimeLoc,
+    data: &str,
+    mod_dir: &std::path::Path,
+    interner: &Interner,
+) -> String {
+    (loc, data).to_mangled_name(mod_dir, interner)
+}
+
+pub fn mangle_internal(name: &str) -> String {
+    mangle::mangle_internal(name)
+}
+
+/// Type ids as `to_type_id` hands them out, in order, from a fresh `MetaTyData`.
+/// Also returns the full `(type, id)` table built along the way.
+pub fn type_ids(tys: &[Intern<Ty>], pointer_bit_width: u32) -> (Vec<u32>, Vec<(Intern<Ty>, u32)>) {
+    layout::calc_layouts(tys.iter().copied(), pointer_bit_width);
+    let mut meta = MetaTyData::default();
+    let ids = tys
+        .iter()
+        .map(|ty| ty.to_type_id(&mut meta, ptr_ty(pointer_bit_width)))
+        .collect();
+    (ids, meta.type_ids.clone())
+}
+
+/// Plain-data rendering of the x86-64 System V `FnAbi` computed for a signature.
+pub fn x86_64_sysv_abi(params: &[ParamTy], ret: Intern<Ty>, pointer_bit_width: u32) -> String {
+    let all = params.iter().map(|p| p.ty).chain(std::iter::once(ret));
+    layout::calc_layouts(all.clone(), pointer_bit_width);
+    convert::calc_finals(all, ptr_ty(pointer_bit_width));
+    let abi = convert::abi::x86_64::fn_ty_to_abi((params, ret));
+    format!("{abi:?}")
+}
+
+/// The Cranelift value type a (non-aggregate) Capy type is lowered to, with signedness.
+pub fn final_ty(ty: Intern<Ty>, pointer_bit_width: u32) -> String {
+    convert::calc_finals(std::iter::once(ty), ptr_ty(pointer_bit_width));
+    format!("{:?}", ty.get_final_ty())
+}
